@@ -36,6 +36,8 @@ const tabSize = 8
 // the methods Lex(*<prefix>SymType) int and Error(string).
 type yyLex struct {
 	reader        *bufio.Reader
+	pending       string                     // rest of the chunk last read from reader, after a bare carriage return ended a line
+	pendingErr    error                      // error that came with that chunk
 	filename      string                     // name of the file being read
 	line          string                     // current line being parsed
 	lastLine      string                     // last line that was parsed
@@ -109,13 +111,33 @@ func (x *yyLex) dequeue() int {
 	return token
 }
 
+// Read one physical line, ended by "\n", "\r\n" or a bare "\r" (all
+// three are line terminators in python source); the line is returned
+// with "\n" as its terminator
+func (x *yyLex) readLine() (string, error) {
+	if x.pending == "" {
+		x.pending, x.pendingErr = x.reader.ReadString('\n')
+	}
+	chunk := x.pending
+	i := strings.IndexByte(chunk, '\r')
+	if i < 0 {
+		x.pending = ""
+		return chunk, x.pendingErr
+	}
+	rest := chunk[i+1:]
+	if strings.HasPrefix(rest, "\n") {
+		rest = rest[1:]
+	}
+	// the line is complete: an error (end of input) that came with the
+	// chunk belongs to what follows it
+	x.pending = rest
+	return chunk[:i] + "\n", nil
+}
+
 // Refill line
 func (x *yyLex) refill() {
 	var err error
-	x.line, err = x.reader.ReadString('\n')
-	if strings.HasSuffix(x.line, "\r\n") {
-		x.line = x.line[:len(x.line)-2] + "\n"
-	}
+	x.line, err = x.readLine()
 	if yyDebug >= 2 {
 		fmt.Printf("line = %q, err = %v\n", x.line, err)
 	}
